@@ -66,3 +66,27 @@ def order_independent(hosts, perm, query_host):
     if bool(t1.match(query_host)) != bool(t2.match(query_host)):
         return False
     return len(t1) == len(t2)
+
+
+def idn_history(hosts, canon_hosts, query_host, canon_query, pre, post):
+    """hostnames whose internationalized label is spelled in punycode or in Unicode (canon_*: all in Unicode):
+    the spelling never matters"""
+    t = HostnameTrieSet()
+    for h in hosts:
+        t.add(h)
+    expected = False
+    for h in canon_hosts:
+        if _under(canon_query, h):
+            expected = True
+    if bool(t.match(pre + query_host + post)) != expected:
+        return False
+    mins = _minimal(canon_hosts)
+    if len(t) != len(mins):
+        return False
+    got = list(t)
+    if len(got) != len(mins):
+        return False
+    for g in got:
+        if g not in mins:
+            return False
+    return True
